@@ -322,7 +322,7 @@ def run(chk, tier):
                 "binary products %s, plus seeded random tuples; a case is non-trivial when the specification "
                 "defines its value (otherwise it is an agreement case)" %
                 ("on a 1/%d stride of the index grid plus the full product of the core sets" %
-                 (int(os.environ.get("VERIF_C04_STRIDE", "3")) if thorough else 251)))
+                 (int(os.environ.get("VERIF_C04_STRIDE", "5")) if thorough else 251)))
     chk.assumptions += [
         "platform of the binding: LP64 (SInt and Word are 64 bit two's complement, HInt 16 bit, Byte 8 bit unsigned, "
         "Char unsigned 8 bit); gcc -O0 wraps signed overflow",
@@ -352,7 +352,7 @@ def run(chk, tier):
 
     _log("model checks done")
     # ---------------- (B) expected table from TLC
-    stride = int(os.environ.get("VERIF_C04_STRIDE", "3")) if thorough else 251
+    stride = int(os.environ.get("VERIF_C04_STRIDE", "5")) if thorough else 251
     stride3 = 2 if thorough else 61
     offset = chk.seed % 9973
     t0 = time.time()
@@ -443,8 +443,7 @@ def run(chk, tier):
     vsel = [i for i, c in enumerate(cases) if c["res"] is not None and sig[c["op"]]["args"]
             and sig[c["op"]]["args"][0] in ("SInt", "BInt", "Bool")
             and c["op"] not in ("FormatSInt", "FormatBInt")]
-    if not thorough:
-        vsel = vsel[chk.seed % 4::4]
+    vsel = vsel[chk.seed % 3::3] if thorough else vsel[chk.seed % 4::4]
     vcases = [cases[i] for i in vsel]
     t0 = time.time()
     vobs, vcrashes, _, _ = run_cases(build, vcases, sig, work, "v", False, 0, modes=("q2v",), variable_first=True,
@@ -665,6 +664,12 @@ different digest were each printed as REJECT / DISAGREE (SUMMARY rejected = 3, d
 Candidate repairs (hooks/fix-C04-{cfold,fint-bool,timesmod,genc,runtime}.diff applied together with the hook diff in one
 worktree): exit 0, "held"; the only known findings still hit are the two without a patch (SIntPlusMod overflow: 6 keys;
 SIntTimesModInv: 2 keys); trace summary rejected = 64 (the SIntPlusMod events), disagreed = 0.
+
+Thorough tier: exercised end to end with VERIF_C04_STRIDE=15 on the hook worktree (default is 5; 1 = full product): held,
+261 559 cases x 3 routes + 225 444 q2v cases, 176 306 cases confirmed folded, 247 920 events validated, 852 557 TLC states,
+3 612 s wall at load average 130-250 (about 5 000 CPU-seconds).  A first attempt lost its compiler when other checks' builds
+evicted the shared build cache entry after 40 minutes: the check now works on a private copy of aldor and libfoam-fresh.a.
+The default stride 5 has not been run to completion here because of the machine load.
 
 False alarms met while building (fixed in the model/harness, never listed as findings): compiler warnings about stale .c
 files shifted the output lines of the -Q2 run; an interpreter abort (SIntTimesModInv "unimplemented") was attributed to the
